@@ -205,3 +205,21 @@ Proof. induction l1 as [|x l1 IH]; cbn; [reflexivity|]. now rewrite IH, map_map.
 Lemma flat_map_map2 {A B C D E : Type} (f : A -> C) (g : B -> D) (h : C -> D -> E) (l1 : list A) (l2 : list B) :
   flat_map (fun x => map (fun y => h (f x) (g y)) l2) l1 = flat_map (fun u => map (fun v => h u v) (map g l2)) (map f l1).
 Proof. induction l1 as [|x l1 IH]; cbn; [reflexivity|]. now rewrite IH, map_map. Qed.
+
+(* accumulate a list and a running integer sum in one loop (MProcess._embed...: Kraus lists per outcome and their total number) *)
+Definition sumZ {A : Type} (g : A -> Z) (l : list A) : Z := fold_right (fun x acc => (g x + acc)%Z) 0%Z l.
+Lemma fold_append_sum {A B : Type} (f : A -> B) (g : A -> Z) l : forall a c,
+  fold_left (fun (st : list B * Z) x => (fst st ++ [f x], (snd st + g x)%Z)) l (a, c) = (a ++ map f l, (c + sumZ g l)%Z).
+Proof. induction l as [|x l IH]; intros a c; cbn [fold_left map sumZ fold_right fst snd]; [now rewrite app_nil_r, Z.add_0_r|].
+  rewrite IH, <- app_assoc. cbn [app]. f_equal. unfold sumZ. cbn [fold_right]. lia. Qed.
+Lemma sumZ_length {A B : Type} (h : A -> list B) l : sumZ (fun x => Z.of_nat (length (h x))) l = Z.of_nat (list_sum (map (@length B) (map h l))).
+Proof. induction l as [|x l IH]; [reflexivity|]. unfold sumZ in *. cbn [fold_right map list_sum]. rewrite IH.
+  change (fold_right Nat.add 0%nat (map (@length B) (map h l))) with (list_sum (map (@length B) (map h l))). lia. Qed.
+
+(* ---- the dispatch table of operators._tensor_product *)
+Lemma tp_dispatch_sound t1 t2 c : tp_dispatch t1 t2 = Some c -> In (t1, t2, c) tp_table.
+Proof. unfold tp_dispatch. destruct (find _ tp_table) as [[[a b] c']|] eqn:F; [|discriminate]. cbn [option_map snd]. intros H. inversion H; subst.
+  apply find_some in F. destruct F as [Hin Hb]. cbn [fst snd] in Hb. apply andb_prop in Hb. destruct Hb as [H1 H2].
+  apply Z.eqb_eq in H1, H2. now subst. Qed.
+Lemma tp_dispatch_complete t1 t2 c : In (t1, t2, c) tp_table -> tp_dispatch t1 t2 = Some c.
+Proof. cbn [In tp_table]. intros H. repeat (destruct H as [H|H]; [inversion H; subst; reflexivity|]). destruct H. Qed.
